@@ -25,7 +25,8 @@ pub fn gen_len(src: &mut Src, cap: usize) -> usize {
 
 /// Shorter lengths for expensive blocks.
 pub fn gen_len_small(src: &mut Src, cap: usize) -> usize {
-    match src.below(8) {
+    match src.below(9) {
+        8 => 3 * cap + src.below(17),
         0 => 0,
         1 => 1,
         2 => cap + 1,
